@@ -45,7 +45,7 @@ def run(c):
     gsp_util.report_rejections(c, rb, "base-leecher-trace", "baseleecher", "BaseLeecher")
 
     # ---- peer leecher
-    pls = c.pick([6], [7, 8])
+    pls = c.pick([6], [7])
     pscen = c.path("pl_scen.ndjson")
     npl = 0
     with open(pscen, "w") as out:
